@@ -30,7 +30,7 @@ META_VALUES = st.one_of(
     st.sampled_from(['#tag']).map(lambda t: ('tag', t[1:])),
     st.none(),
 )
-META_KEYS = ['ref', 'note', 'when', 'amt', 'flagged', 'k1']
+META_KEYS = ['ref', 'note', 'when', 'amt', 'flagged', 'k1', 'checkNo', 'inv-id']
 
 
 def metas(max_size=3):
